@@ -133,7 +133,14 @@ func (c *checker) reportOrder(kind, class string, n *node) {
 	c.order[sig] = &orderViolation{Signature: sig, Kind: kind, Class: class, Path: p, Pos: pos, root: c.root}
 }
 
-func (c *checker) group(h hlist, write bool) string {
+// lazilyLoadedLoc: classes that calls holding only the handle read lock may
+// write (under DB.sl on fixed trees): on a tree without DB.sl both the write
+// and the reads that race with it are the same defect (D11).
+func lazilyLoadedLoc(loc string) bool {
+	return loc == "DB.schemas" || loc == "Async.routineStarted"
+}
+
+func (c *checker) group(h hlist, write bool, loc string) string {
 	rootIsSearch := false
 	if c.root.lit == nil && c.root.fn != nil {
 		if sig := c.root.fn.Type().(*types.Signature); sig.Recv() != nil {
@@ -143,7 +150,7 @@ func (c *checker) group(h hlist, write bool) string {
 	switch {
 	case len(h) == 0 && rootIsSearch:
 		return "unlocked-search"
-	case write && h.String() == "DB.l:R":
+	case (write || lazilyLoadedLoc(loc)) && h.String() == "DB.l:R":
 		return "write-under-read-lock"
 	case len(h) == 0 && c.root.lit != nil && c.root.spawn:
 		return "flusher-unlocked-settings"
@@ -162,7 +169,7 @@ func (c *checker) reportAccess(n *node, h hlist) {
 	}
 	fn := c.path[len(c.path)-1]
 	sig := fmt.Sprintf("unguarded|%s|%s|held=%s|%s", n.loc, mode, h.String(), fn.short)
-	g := c.group(h, n.write)
+	g := c.group(h, n.write, n.loc)
 	key := sig + "#" + g
 	v := c.lockset[key]
 	if v == nil {
